@@ -298,6 +298,80 @@ def main():
     add_eq((180.0, 0.0, None, None), (-180.0, 0.0, None, None), 'antimeridian')
     add_eq((0.0, 0.0, None, None), (-0.0, -0.0, None, None), 'signed-zero')
 
+    # ---- pair stream on STORED values: == must be exact equality of the stored (lon, lat, z);
+    # close-but-different stored values (ulp neighbours, one nominal point reached through
+    # different wraps / pole crossings) must compare unequal; equal ones must hash equally
+    def add_pair(a, b, cls):
+        A, B = build(*a), build(*b)
+        if A[0] != 'Ok' or B[0] != 'Ok':
+            return
+        A, B = A[1], B[1]
+        o_eq, o_sym, o_h, o_len = (A == B), (B == A), (hash(A) == hash(B)), len({A, B})
+        mt = {'k': 'eq-stored', 'a': [repr(x) for x in a], 'b': [repr(x) for x in b], 'class': cls,
+              'stored_a': [repr(A.longitude), repr(A.latitude), repr(A.z), repr(A.m)],
+              'stored_b': [repr(B.longitude), repr(B.latitude), repr(B.z), repr(B.m)],
+              'eq': o_eq, 'eq_sym': o_sym, 'hasheq': o_h, 'setlen': o_len}
+        same = (A.longitude, A.latitude, A.z) == (B.longitude, B.latitude, B.z)
+        bad = []
+        if o_eq != same:
+            bad.append(('eq', f'== is {o_eq} but the stored (lon, lat, z) are {"equal" if same else "different"}'))
+        if o_eq != o_sym:
+            bad.append(('eq-symmetry', f'a == b is {o_eq}, b == a is {o_sym}'))
+        if o_eq and not o_h:
+            bad.append(('eq-hash', 'coordinates compare equal but hash differently'))
+        if o_len != (1 if same else 2):
+            bad.append(('set', f'len({{a, b}}) = {o_len}'))
+        if bad:
+            mt['property_clauses_violated'] = bad
+
+        def num(v):
+            return oq(None if v is None else v)
+        cases.append(f'KEqStored {qlit(F(A.longitude))} {qlit(F(A.latitude))} {num(A.z)} {num(A.m)} '
+                     f'{qlit(F(B.longitude))} {qlit(F(B.latitude))} {num(B.z)} {num(B.m)} '
+                     f'{blit(o_eq)} {blit(o_sym)} {blit(o_h)} {o_len}')
+        meta.append(mt)
+        ck.count('pair:' + cls)
+
+    def ulps(x, k):
+        for _ in range(abs(k)):
+            x = nxt(x, k > 0)
+        return x
+
+    anchors = [0.0, -0.0, 90.0, -90.0, 180.0, -180.0, 45.0, -45.0, 1.0, 179.99999999999997, 1e-9, 33.3, -178.7, 0.1]
+    pts = [(lo, la) for lo in anchors for la in (0.0, 33.3, 90.0, -90.0, 1e-9) if abs(la) <= 90]
+    for _ in range(60 if ck.tier == 'quick' else 3000):
+        pts.append((rng.uniform(-180, 180), rng.uniform(-90, 90)))
+        pts.append((rng.randrange(-1800, 1800) / 10, rng.randrange(-900, 901) / 10))
+    for lo, la in pts:
+        z = rng.choice([None, None, 0.0, 12.5])
+        add_pair((lo, la, z, None), (lo, la, z, None), 'identical')
+        for k in (1, -1, 3, -7):
+            add_pair((lo, la, z, None), (ulps(lo, k), la, z, None), 'ulp-neighbour-lon')
+            add_pair((lo, la, z, None), (lo, ulps(la, k), z, None), 'ulp-neighbour-lat')
+        d = rng.choice([1e-12, 1e-10, 9e-10, 1e-9, 1e-7])
+        add_pair((lo, la, z, None), (lo + d, la, z, None), 'tiny-offset')
+        add_pair((lo, la, z, None), (lo, la - d, z, None), 'tiny-offset')
+        if z is not None:
+            add_pair((lo, la, z, None), (lo, la, ulps(z, 1), None), 'ulp-neighbour-z')
+        # the same nominal point through different wraps and pole crossings
+        add_pair((lo, la, z, None), (lo + 360.0, la, z, None), 'wrap+360')
+        add_pair((lo, la, z, None), (lo - 720.0, la, z, None), 'wrap-720')
+        add_pair((lo + 360.0, la, z, None), (lo - 360.0, la, z, None), 'wrap+-360')
+        add_pair((lo, la, z, None), (lo + 180.0, 180.0 - la, z, None), 'over-north-pole')
+        add_pair((lo, la, z, None), (lo - 180.0, -180.0 - la, z, None), 'over-south-pole')
+        add_pair((lo, la, z, None), (lo, la + 360.0, z, None), 'twice-over-poles')
+        # spellings of one value
+        add_pair((lo, la, z, None), (repr(lo), repr(la), z, None), 'spelling-str')
+        if lo == int(lo) and la == int(la):
+            add_pair((lo, la, z, None), (int(lo), int(la), z, None), 'spelling-int')
+            add_pair((str(int(lo)), str(int(la)), z, None), (int(lo), int(la), z, None), 'spelling-int-str')
+    for a, b in [((181.3, 0.0), (-178.7, 0.0)), ((0.0, 146.7), (180.0, 33.3)), ((0.0, 146.7), (-180.0, 33.3)),
+                 ((180.0, 0.0), (-180.0, 0.0)), ((540.0, 0.0), (-180.0, 0.0)), ((0.0, 0.0), (-0.0, -0.0)),
+                 ((0.0, 90.0), (180.0, 90.0)), ((10.0, 90.0), (190.0, 90.0)), ((5e-324, 0.0), (0.0, 0.0)),
+                 ((179.99999999999997, 0.0), (-180.0, 0.0)), ((90.0, 90.0), (90.0, nxt(90.0, False)))]:
+        add_pair(a + (None, None), b + (None, None), 'fixed-close-pairs')
+        add_pair(b + (None, None), a + (None, None), 'fixed-close-pairs')
+
     ck.cov['evaluations'] = len(cases)
     ck.cov['distinct_nontrivial'] = len(nontrivial)
     ck.cov['max_loop_iterations'] = max([m.get('iterations', 0) for m in meta] or [0])
@@ -325,7 +399,9 @@ def main():
                    'str); all pairs of {+-90k (k<=6), one ulp either side, +-0.0, denormal, 1e-20, 2^-52}; seeded random '
                    'dyadics (0-20 fractional bits) and decimal doubles in +-1e5, tiny longitudes carried over a pole, '
                    'values one ulp from a multiple of 90 against random partners; float()-accepted text forms; Z/M values; '
-                   '_bounded=False; ==/hash on pairs differing only in M, only in Z, by a full turn, by a pole reflection. '
+                   '_bounded=False; ==/hash on pairs differing only in M, only in Z, by a full turn, by a pole reflection; a pair stream on '
+                   'the STORED values (identical inputs, 1/3/7-ulp neighbours in lon, lat and z, offsets 1e-12..1e-7, the same nominal '
+                   'point through +-360/720 wraps and pole crossings, int/float/str spellings) observing a==b, b==a, hash, len({a,b}). '
                    'non-trivial = distinct (lon,lat) on which at least one loop iterates or 180 is mapped to -180',
               assumptions=['a Python float is the rational it denotes; float(str)/float(int) are taken as given (the input '
                            'rational is read after conversion)',
